@@ -310,11 +310,20 @@ CHECKS = {
         "atomicity of each call is checked separately by parking a client inside it",
         "handler shapes modelled step by step: GET, MGET, SET (plain, NX, PXAT), MSET, INCR, APPEND, DEL, GETDEL, RENAME, RPUSH",
         "the race detector is only used on workloads in which the model has no shared mutable access (clients on disjoint keys)"]),
-    "C06": TraceModelCheck(
+    "C06": Composite([TraceModelCheck(
         jobs={"quick": [["acl", "-n", "120", "-len", "80"]], "thorough": [["acl", "-n", "1500", "-len", "100"]]},
         trace_spec="Trace_Acl",
         models={"quick": [("MC_Acl", MC_ACL_CFG % 2)], "thorough": [("MC_Acl", MC_ACL_CFG % 3)]},
         rule=ACL_RULE, assumptions=ACL_ASSUME, count_keys=("histories", "try", "try_ran", "try_denied", "try_closed", "setuser", "auth")),
+        # with a password required every command passes through authorization before its handler runs: the
+        # handler must still see the command as the client sent it (Exec judges every reply and the dataset)
+        TraceModelCheck(
+            jobs={"quick": [["conns", "-auth", "-n", "40", "-len", "40"]], "thorough": [["conns", "-auth", "-n", "500", "-len", "60"]]},
+            trace_spec="Trace_Conns", models={"quick": [], "thorough": []},
+            rule="one event = one generic/string command, SELECT, flush or reconnect on one of three authenticated connections of a server that "
+                 "requires a password; judged by Exec in the database the connection selected",
+            assumptions=TRUSTED, count_keys=("histories", "commands", "select", "newconn", "data"), deviation_consts=True),
+    ]),
     "C11": TraceModelCheck(
         jobs={"quick": [["acl", "-n", "120", "-len", "80"]], "thorough": [["acl", "-n", "1500", "-len", "100"]]},
         trace_spec="Trace_Acl",
